@@ -298,6 +298,7 @@ for _k, (_lt, _rule) in _ADD.items():
     PROPS[_k]['rule'] = PROPS[_k]['rule'] + _rule
 # round-4 additions (rule text only, appended after the addenda above)
 _ADD4L = {
+    'C15': ' cluster_less_match_fails: a matched route that selects no cluster ends the routing step in a routing error for every draw (no fall-through); clusters_play_no_part_in_matching.',
     'C01': ' push_touches_only_its_type: handling a response of one type changes neither cache, access records, interest set nor version of any other type (state level).',
     'C04': ' nonce_frame: the recorded nonce of a type changes only by a response of that type (to its nonce) or a reconnect (to empty); subscription_request_echoes_recorded_nonce: a subscription change echoes the recorded, i.e. latest, nonce.',
 }
